@@ -441,6 +441,32 @@ class AnsiString:
                             removed_settings.append(settings_point.add[i])
                             del settings_point.add[i]
 
+        # A setting which is stopped and started again at the same index is a restart (see apply_formatting with
+        # topmost=False). Once the setting it was made for is gone, the restart may have no effect by itself any more, but
+        # it would still lift the restarted settings above anything applied on top later on - drop such restarts.
+        current_settings = []
+        for idx in sorted(self._fmts.keys()):
+            settings_point = self._fmts[idx]
+            restarted = [
+                s for s in settings_point.add
+                if __class__._find_setting_reference(s, settings_point.rem) >= 0
+            ]
+            with_restarts = [
+                s for s in current_settings
+                if __class__._find_setting_reference(s, settings_point.rem) < 0
+            ] + settings_point.add
+            if restarted:
+                rem_only = [s for s in settings_point.rem if __class__._find_setting_reference(s, restarted) < 0]
+                add_only = [s for s in settings_point.add if __class__._find_setting_reference(s, restarted) < 0]
+                without_restarts = [
+                    s for s in current_settings
+                    if __class__._find_setting_reference(s, rem_only) < 0
+                ] + add_only
+                if len(with_restarts) == len(without_restarts) and all(a is b for a, b in zip(with_restarts, without_restarts)):
+                    settings_point.rem = rem_only
+                    settings_point.add = add_only
+            current_settings = with_restarts
+
         # Clean up now empty entries
         for idx in list(self._fmts.keys()):
             if not self._fmts[idx]:
